@@ -18,10 +18,10 @@ from pfimport import exc_enum
 
 import pipegen
 import terms
-from props_extra import c02_sig
+from props_extra import c02_sig, c02_session
 
 PID = "C02"
-PROPS = ["PfModel.Props.C02", "PfModel.Props.C02Needed", "PfModel.Props.C02Entries"]
+PROPS = ["PfModel.Props.C02", "PfModel.Props.C02Needed", "PfModel.Props.C02Entries", "PfModel.Props.C02Session", "PfModel.Props.C02View"]
 DRIVER = "C02"
 RULE = ("random DAGs of 1-6 term-building functions (nullary, tuple outputs, shared parameters, defaults, bound values incl. over an "
         "upstream output, renames); for every output every listed argument combination (all when <= 16, else 16 sampled) plus "
@@ -30,20 +30,28 @@ RULE = ("random DAGs of 1-6 term-building functions (nullary, tuple outputs, sha
         "pipeline[o](*positional), 2 extra listing orders; a second stream wraps every function in a random callable style (def, lambda, "
         "class, callable instance, method, classmethod, functools.partial x2, keyword-only, dict + output_picker) with None/falsy/mutable "
         "defaults and falsy keyword values, ties PipeFunc.parameters/defaults/bound/renames/output_name to the description and runs the "
-        "same comparison on 4 builds (plain, PipeFunc(defaults=)+profile, debug, cache twice); a case is non-trivial when the requested "
-        "output's producer has at least one upstream function; distinct by (pipeline, output, keywords, entry)")
+        "same comparison on 4 builds (plain, PipeFunc(defaults=)+profile, debug, cache twice); a third stream runs SESSIONS on one "
+        "pipeline object (built with signature or PipeFunc(defaults=) defaults, listed or permuted): 2-4 rounds of in-place edits "
+        "(update_defaults/update_bound/update_renames on a member, update_defaults/update_renames on the pipeline, unknown keys) each "
+        "followed by ~5 calls through the same entry points (defaulted root arguments omitted at random), arg_combinations/root_args and "
+        "Pipeline.defaults, every answer compared with the model of the edited description; a case is non-trivial when the requested "
+        "output's producer has at least one upstream function (a session step: when at least one edit precedes it); distinct by "
+        "(pipeline, output, keywords, entry) / (session prefix)")
 ASSUMPTIONS = ["inspect.signature is outside the model: the model is fed the parameter lists of the generated functions; the signature "
                "tie checks PipeFunc.parameters/defaults/bound/renames/output_name against the description for ten callable styles",
                "networkx graph construction is mirrored by the model's `preds`/`leafFuncs`; only sets of combinations are compared",
                "values are uninterpreted terms (a function is identified by the term it builds)",
                "positional-only parameters, *args/**kwargs and callables without __name__ are outside the property: probed and counted as observations",
-               "with a cache only values (second identical call) are compared; lazy=True is not exercised"]
+               "with a cache only values (second identical call) are compared; lazy=True is not exercised",
+               "sessions: what an edit does to the description (PF.Pipe.applyEdit) is compared, not proved against the update_* code; edits "
+               "stay inside the class of accepted edits that keep the pipeline valid (refusals are C12's subject); output renames only on "
+               "single-output functions; sessions use the two plain builds (no cache, no styled callables)"]
 
 enc = c02_sig.enc
 FALSY = [None, 0, {"s": ""}, {"s": "$False"}]
 PIPELINE_ENTRIES = ("call", "run", "full", "func", "func_full", "func_dict", "callroot", "noout")
 MODEL_ENTRY = {"call": "run", "run": "run", "full": "run", "func": "func", "func_full": "func", "func_dict": "func",
-               "callroot": "callroot", "noout": "callleaf", "pfcall": "pfcall", "pfpos": "pfcall", "getitem": "getitem"}
+               "callroot": "callroot", "noout": "callleaf", "pfcall": "pfcall", "pfpos": "pfpos", "getitem": "getitem"}
 OK_KINDS = ("listed", "tuple-request", "func-each-output", "root-pos", "pf-direct")      # must be accepted
 
 
@@ -127,7 +135,12 @@ def model_obs(r, entry, out, desc):
     if whole and parts is not None and (_producer(desc, whole) or {}).get("style") == "dictpicker":
         value = {"dict": sorted([[n, e] for n, e in zip(whole, parts)], key=lambda kv: kv[0])}   # the function returns a dict
     o = {"value": value}
-    if entry in ("full", "func_full"):
+    dict_whole = bool(whole and (_producer(desc, whole) or {}).get("style") == "dictpicker")
+    if entry in ("full", "func_full") and "fullview" in r and not dict_whole:
+        # the dictionary view is computed in Lean (PF.Pipe.fullView, theorems in Props/C02View.lean)
+        o["full"] = sorted([[k, canon(v)] for k, v in r["fullview_cf" if entry == "func_full" else "fullview"]], key=lambda kv: kv[0])
+    elif entry in ("full", "func_full"):
+        # a dict-returning function with a custom output_picker: Val has no dict, the whole value is re-shaped here
         full = {}
         for k, v in r["full"]:                                # an association list: the first entry of a name is the live one
             full.setdefault(k, canon(v))
@@ -258,8 +271,7 @@ def model_request(desc, c):
     if entry == "callroot":
         a["pos"] = c.get("pos", [])
     if entry == "pfpos":
-        f = _producer(desc, c["out"])
-        a["kw"] = [[q, v] for (q, _), v in zip(f["params"], c["pos"])] + c["kw"]
+        a["pos"] = c["pos"]
     if entry == "getitem":
         del a["kw"]
     return {"m": MODEL_ENTRY[entry], "a": a}
@@ -361,7 +373,7 @@ def judge(ctx, desc, req, meta, resp, styled=False):
         for label, ob in impl:
             ob = ob["second"] if "second" in ob else ob
             ctx.count(f"observation:pipefunc-positional-arg-for-defaulted-or-bound-parameter:{ob.get('err', 'accepted')}")
-        return
+        # judged since round 9: the model (PF.Pipe.pfCallPos) says `TypeError: multiple values` (falls through to the comparison below)
     for i, (label, ob) in enumerate(impl):
         values_only = "second" in ob
         if values_only:
@@ -386,7 +398,7 @@ def judge(ctx, desc, req, meta, resp, styled=False):
             elif kind == "surplus" and ob_c["err"] != "UnusedParametersError" and mod_c["err"] == "UnusedParametersError":
                 ctx.violation(vcase, "surplus keyword rejected with a different error class", found_input=False,
                               item="correspondence:error-class", impl=ob_c, model=mod_c)
-            elif (kind.startswith("root-bad") or kind in ("getitem-unknown", "pf-extra", "noout")) and ob_c["err"] != mod_c["err"]:
+            elif (kind.startswith("root-bad") or kind in ("getitem-unknown", "pf-extra", "noout", "pf-pos:default-or-bound")) and ob_c["err"] != mod_c["err"]:
                 ctx.violation(vcase, f"{entry} ({kind}) refused with {ob_c['err']} instead of {mod_c['err']}", found_input=False,
                               item="correspondence:error-class", impl=ob_c, model=mod_c)
             ctx.count(f"err:{kind}")
@@ -484,12 +496,42 @@ def run(ctx):
                 continue
             all_reqs += reqs
             all_meta += [(desc, m, styled) for m in metas]
+    # sessions on one object: corpus, then generated while they run (the arguments come from the object's own arg_combinations)
+    sessions = [(copy.deepcopy(s), None) for s in c02_session.CORPUS]
+    for _ in range(ctx.n(70, 1500)):
+        desc = pipegen.gen_dag(rng, max_funcs=rng.choice([2, 3, 4, 5]), p_default=0.45)
+        try:
+            sessions.append(c02_session.run_session(_SELF(), ctx, rng, desc))
+        except Exception as e:  # noqa: BLE001
+            ctx.count(f"session-construct-exc:{exc_enum(e)}")
+            ctx.violation({"funcs": desc["funcs"]}, f"valid pipeline refused at construction: {type(e).__name__}: {str(e)[:100]}")
+    for i, (sess, obs) in enumerate(sessions):
+        if obs is None:
+            sessions[i] = (sess, c02_session.replay_impl(_SELF(), sess))
+        all_reqs.append(c02_session.model_request(sess))
+        all_meta.append((None, ("session", i), False))
     outs = ctx.lean(all_reqs)
     for req, (desc, meta, styled), resp in zip(all_reqs, all_meta, outs):
+        if meta[0] == "session":
+            c02_session.judge(_SELF(), ctx, sessions[meta[1]][0], sessions[meta[1]][1], resp)
+            continue
         judge(ctx, desc, req, meta, resp, styled=styled)
 
 
+def _SELF():
+    import sys
+    return sys.modules[__name__]
+
+
 def replay(ctx, case):
+    if case.get("session"):
+        obs = c02_session.replay_impl(_SELF(), case)
+        answers = ctx.lean([c02_session.model_request(case)])[0]["r"]["answers"]
+        for i, (st, ob, a) in enumerate(zip(case["steps"], obs, answers)):
+            print(f"step {i}: {st['e'] if st['k'] == 'edit' else {k: st.get(k) for k in ('entry', 'out', 'kw', 'pos', 'kind')}}")
+            print("   implementation:", ob)
+            print("   model:         ", a if st["k"] == "edit" else c02_session._model_obs(_SELF(), st, a))
+        return
     desc = {"funcs": case["funcs"]}
     styled = case.get("styled")
     if case.get("sig_tie"):
